@@ -79,6 +79,12 @@ var props = map[string]propCfg{
 		Quick:    tierCfg{16, 20},
 		Thorough: tierCfg{16, 600},
 	},
+	"C07": {
+		Harness:  "./harness/c07",
+		Specs:    lfSpecs(),
+		Quick:    tierCfg{16, 20},
+		Thorough: tierCfg{16, 600},
+	},
 	"C09": {
 		Harness:  "./harness/c09",
 		Specs:    []rewrite.PkgSpec{{Dir: repo("par"), Subst: substSync, GoStmts: true}},
